@@ -330,11 +330,39 @@ public:
         return make_rcp<const Poly>(vars, std::move(d));
     }
 
+    //! true for the zero polynomial and for a single term of degree zero.
+    //! Such polynomials are equal regardless of their variables (see
+    //! `__eq__`), so `compare` and `__hash__` must ignore the variables too.
+    bool is_constant() const
+    {
+        if (poly_.dict_.empty())
+            return true;
+        if (poly_.dict_.size() != 1)
+            return false;
+        for (auto e : poly_.dict_.begin()->first)
+            if (e != 0)
+                return false;
+        return true;
+    }
+
     int compare(const Basic &o) const override
     {
         SYMENGINE_ASSERT(is_a<Poly>(o))
 
         const Poly &s = down_cast<const Poly &>(o);
+
+        // constants come first and are ordered by their value only
+        bool c1 = is_constant(), c2 = s.is_constant();
+        if (c1 != c2)
+            return c1 ? -1 : 1;
+        if (c1) {
+            if (poly_.dict_.size() != s.poly_.dict_.size())
+                return poly_.dict_.size() < s.poly_.dict_.size() ? -1 : 1;
+            if (poly_.dict_.empty())
+                return 0;
+            return unified_compare(poly_.dict_.begin()->second,
+                                   s.poly_.dict_.begin()->second);
+        }
 
         if (vars_.size() != s.vars_.size())
             return vars_.size() < s.vars_.size() ? -1 : 1;
@@ -414,25 +442,16 @@ public:
             return false;
         const Poly &o_ = down_cast<const Poly &>(o);
         // compare constants without regards to vars
-        if (1 == poly_.dict_.size() && 1 == o_.poly_.dict_.size()) {
-            if (poly_.dict_.begin()->second != o_.poly_.dict_.begin()->second)
+        if (is_constant() && o_.is_constant()) {
+            if (poly_.dict_.size() != o_.poly_.dict_.size())
                 return false;
-            if (poly_.dict_.begin()->first == o_.poly_.dict_.begin()->first
-                && unified_eq(vars_, o_.vars_))
+            if (poly_.dict_.empty())
                 return true;
-            typename Container::vec_type v1, v2;
-            v1.resize(vars_.size(), 0);
-            v2.resize(o_.vars_.size(), 0);
-            if (poly_.dict_.begin()->first == v1
-                || o_.poly_.dict_.begin()->first == v2)
-                return true;
-            return false;
-        } else if (0 == poly_.dict_.size() && 0 == o_.poly_.dict_.size()) {
-            return true;
-        } else {
-            return (unified_eq(vars_, o_.vars_)
-                    && unified_eq(poly_.dict_, o_.poly_.dict_));
+            return poly_.dict_.begin()->second
+                   == o_.poly_.dict_.begin()->second;
         }
+        return (unified_eq(vars_, o_.vars_)
+                && unified_eq(poly_.dict_, o_.poly_.dict_));
     }
 };
 
